@@ -268,10 +268,15 @@ class Server(Acceptor):
         self.serviceAccepts()  # populate .axes
         while self.axes:
             cs, ca = self.axes.popleft()
-            if ca != cs.getpeername() or self.eha[1] != cs.getsockname()[1]: # only port on eha
-                raise ValueError("Accepted socket host addresses malformed for "
-                                 "peer. ca {0} != {1} or ha port {2} != {3}\n"
-                                 "".format(ca, cs.getpeername(), self.eha, cs.getsockname()))
+            try:
+                if ca != cs.getpeername() or self.eha[1] != cs.getsockname()[1]: # only port on eha
+                    raise ValueError("Accepted socket host addresses malformed for "
+                                     "peer. ca {0} != {1} or ha port {2} != {3}\n"
+                                     "".format(ca, cs.getpeername(), self.eha, cs.getsockname()))
+            except OSError as ex:  # peer reset connection before it was serviced
+                logger.error("Closing accepted socket from %s.\n%s\n", ca, ex)
+                cs.close()
+                continue
             remoter = Remoter(tymth=self.tymth,
                               ha=cs.getsockname(),
                               ca=ca,
@@ -550,10 +555,15 @@ class ServerTls(Server):
         self.serviceAccepts()  # populate .axes
         while self.axes:
             cs, ca = self.axes.popleft()
-            if ca != cs.getpeername() or self.eha[1] != cs.getsockname()[1]: # only port on eha
-                raise ValueError("Accepted socket host addresses malformed for "
-                                 "peer. ca {0} != {1} or ha port {2} != {3}\n"
-                                 "".format(ca, cs.getpeername(), self.eha, cs.getsockname()))
+            try:
+                if ca != cs.getpeername() or self.eha[1] != cs.getsockname()[1]: # only port on eha
+                    raise ValueError("Accepted socket host addresses malformed for "
+                                     "peer. ca {0} != {1} or ha port {2} != {3}\n"
+                                     "".format(ca, cs.getpeername(), self.eha, cs.getsockname()))
+            except OSError as ex:  # peer reset connection before it was serviced
+                logger.error("Closing accepted socket from %s.\n%s\n", ca, ex)
+                cs.close()
+                continue
             remoter = RemoterTls(tymth=self.tymth,
                                  ha=cs.getsockname(),
                                  ca=ca,
